@@ -19,6 +19,12 @@ PROPS = {
         partial="TSO/TSG file framing, tags tree and restart path: correspondence / end-to-end only",
         assumptions=["ingest hands the compressor header = first timestamp and non-zero uint32 timestamps"],
     ),
+    "C10": dict(
+        suites=[("wal", 2500, 40000)],
+        trusted_base=["CRC-32 and zstd are parameters of the model (any function / any injective codec); the Oracle instantiates CRC-32 with a Lean implementation that the correspondence run validates against hash/crc32"],
+        decided_by_proof="WAL framing: intact replay, truncation at every byte = exact prefix of complete frames, crash at every write boundary, single-byte damage detected modulo an explicit checksum accident, datapoint block codec round trip",
+        partial="RecoverWALData's file discovery/ordering and re-flush, metric-name and metrics-meta WALs: correspondence/E2E only",
+    ),
 }
 
 NOT_YET = {}
